@@ -16,22 +16,21 @@ and T-diff (`diff-parser`, `diff-pipeline`: the model's trees are the real parse
 namespace PhpVerif.Linear
 open PhpVerif
 
-/-- OBLIGATION (php7): the analysis shows every path of every grammar action linear, except the two paths that
-    overwrite a field they stored into before (`foreach` with a `list()` target: productions 148 and 149,
-    first path each).  An action that starts to store a right-hand-side value, or one of its own node
-    literals, in two places — or stores through a list element — lands in this list and breaks the theorem. -/
-theorem not_linear7 : notLinear Gen.terms7 = [(148, 0), (149, 0)] := by decide +kernel
+/-- OBLIGATION (php7): the analysis shows **every** path of every grammar action linear.  An action that starts to
+    store a right-hand-side value, or one of its own node literals, in two places lands in this list and breaks
+    the theorems below. -/
+theorem not_linear7 : notLinear Gen.terms7 = [] := by decide +kernel
 
-/-- OBLIGATION (php5): 22 paths of 8 productions are outside the analysis: the two `foreach` productions
-    (68, 69: fields overwritten), and the member-chain productions that store through the first element of a
-    list or take a list apart (340, 344, 436, 440). -/
+/-- OBLIGATION (php5): 8 paths of 4 productions are outside the analysis: the two `foreach` productions with a
+    `list()` target (68, 69: two fields of a field of `$6` go to two places — linear, but the analysis has no
+    resource for a field of a field) and the two member-chain productions that take the elements of a list
+    apart (436, 440: `idx0` / `tail` / `last` / `init` of one list used side by side). -/
 theorem not_linear5 : notLinear Gen.terms5 =
-    [(68, 0), (68, 1), (68, 2), (68, 3), (68, 4), (68, 6), (69, 0), (69, 1), (69, 2), (69, 3), (69, 4), (69, 6),
-     (340, 0), (344, 0), (436, 0), (436, 1), (436, 2), (436, 3), (440, 0), (440, 1), (440, 2), (440, 3)] := by
+    [(68, 0), (68, 2), (69, 0), (69, 2), (436, 0), (436, 1), (440, 0), (440, 1)] := by
   decide +kernel
 
-def bad7 : List Nat := [148, 149]
-def bad5 : List Nat := [68, 69, 340, 344, 436, 440]
+def bad7 : List Nat := []
+def bad5 : List Nat := [68, 69, 436, 440]
 
 theorem allLin_of (ps : List TPath) (bad : List Nat) (h : ∀ x ∈ notLinear ps, x.1 ∈ bad) : AllLin bad (mkPathTable ps) := by
   intro i l hl hnb p hp
@@ -52,6 +51,12 @@ theorem allLin7 : AllLin bad7 (mkPathTable Gen.terms7) :=
 theorem allLin5 : AllLin bad5 (mkPathTable Gen.terms5) :=
   allLin_of _ _ (by rw [not_linear5]; decide)
 
+theorem not_exc7 {tr : List YYEv} (h : ¬ hasErrShift tr) : ¬ Exc bad7 tr := by
+  intro he
+  rcases he with he | ⟨p, st, _, hb⟩
+  · exact h he
+  · simp [bad7] at hb
+
 /-- the statement about a returned root -/
 def LinearRoot (r : V) : Prop :=
   (∀ u, (r.lv.count (.uid u)) ≤ 1) ∧ ∃ c, ∀ i, i ≠ c → (r.lv.count (.tok i)) ≤ 1
@@ -68,16 +73,16 @@ theorem parse_linear_gen (ps : List TPath) (bad : List Nat) (hl : AllLin bad (mk
   · exact ⟨hinv.rootU r hr, hinv.rootT r hr⟩
 
 /-- C02 / C12, php7, every LALR table, every token stream, every run of the whole-parser model that shifts no
-    error token (in particular every parse without a syntax error) and does not reduce production 148 / 149:
+    error token (in particular every parse without a syntax error):
     in the returned tree **no node object occurs twice** (no node is reachable along two paths), and **no token
     is stored in two token fields** — with the possible exception of one token, the one lexed last when the root
     was built (the root's `EndTkn` is `currentToken`, the end-of-input token, which is never shifted). -/
 theorem parsed_tree_is_linear7 (t : YYTab) (combs : List PosComb) (toks : Array TokKey)
     (c : Option Nat) (s : YYSt V TreeSt) (h : parseModel t combs (mkPathTable Gen.terms7) toks = .ok (c, s))
-    (hne : ¬ Exc bad7 s.trace) (r : V) (hr : s.aux.root = some r) : LinearRoot r :=
-  parse_linear_gen Gen.terms7 bad7 allLin7 t combs toks c s h hne r hr
+    (hne : ¬ hasErrShift s.trace) (r : V) (hr : s.aux.root = some r) : LinearRoot r :=
+  parse_linear_gen Gen.terms7 bad7 allLin7 t combs toks c s h (not_exc7 hne) r hr
 
-/-- the same for php5; partial: runs that reduce one of the six productions of `bad5` are not covered -/
+/-- the same for php5; partial: runs that reduce one of the four productions of `bad5` are not covered -/
 theorem parsed_tree_is_linear5_partial (t : YYTab) (combs : List PosComb) (toks : Array TokKey)
     (c : Option Nat) (s : YYSt V TreeSt) (h : parseModel t combs (mkPathTable Gen.terms5) toks = .ok (c, s))
     (hne : ¬ Exc bad5 s.trace) (r : V) (hr : s.aux.root = some r) : LinearRoot r :=
@@ -89,10 +94,10 @@ theorem stack_is_linear7 (t : YYTab) (combs : List PosComb) (toks : Array TokKey
     (c : Option Nat) (s : YYSt V TreeSt)
     (h : yyRun t (treeSem toks combs (mkPathTable Gen.terms7)) ((toks.toList.map (·.id)).toArray) fuel
            (yyInit (treeSem toks combs (mkPathTable Gen.terms7)) {}) = .ok (c, s))
-    (hne : ¬ Exc bad7 s.trace) (a : Leaf) : (lvL (stackVals s)).count a ≤ 1 := by
+    (hne : ¬ hasErrShift s.trace) (a : Leaf) : (lvL (stackVals s)).count a ≤ 1 := by
   have := yyRun_linear toks combs _ bad7 allLin7 t _ fuel _ c s (.inr (LinInv_init toks combs _)) h
   rcases this with he | hinv
-  · exact absurd he hne
+  · exact absurd he (not_exc7 hne)
   · exact hinv.cnt a
 
 /-! ### Stale values: empty productions without an action
@@ -163,6 +168,15 @@ def readsSym (prods : List (Nat × List Nat)) (ps : List TPath) (s : Nat) : List
 
 def staleReads (prods : List (Nat × List Nat)) (ps : List TPath) : List (Nat × Nat) :=
   (staleSyms prods ps).flatMap (readsSym prods ps)
+
+/-- OBLIGATION: no action reads the value of an `error` symbol (symbol 1 of the regenerated grammar), and no
+    production without an action starts with one.  goyacc pushes the error token with the value `yyVAL` of the
+    moment — the result of the last reduction, which may still be on the stack — so this is what keeps a tree
+    returned after recovery from holding a node twice (the part of C07 the linearity theorem above leaves out). -/
+theorem error_values_never_read7 : readsSym Gen.prods7 Gen.terms7 1 = [] := by decide +kernel
+theorem error_values_never_read5 : readsSym Gen.prods5 Gen.terms5 1 = [] := by decide +kernel
+example : 0 < (Gen.prods7.filter (fun p => p.2.contains 1)).length ∧ 0 < (Gen.prods5.filter (fun p => p.2.contains 1)).length := by
+  decide +kernel
 
 /-- OBLIGATION: php7 has one action-less empty production (`backup_doc_comment`), php5 none; no action reads its value -/
 theorem no_stale_reads7 : staleReads Gen.prods7 Gen.terms7 = [] := by decide +kernel
